@@ -520,8 +520,12 @@ def _yielded_index(I, env):
         v = v[1]
     src = None
     # Some((i, _)) payload of Enumerate::next
+    c = None
     if v[0] == 'field' and v[2] == '0' and v[1][0] == 'field' and v[1][2] == '0' and v[1][1][0] == 'downcast' and v[1][1][2] == 'Some':
         c = v[1][1][1]
+    elif v[0] == 'field' and v[2] == '0' and v[1][0] == 'okval':
+        c = v[1][1]
+    if c is not None:
         if c[0] == 'call' and c[1].endswith(('Iterator>::next', 'Iterator::next')) and c[2]:
             it = c[2][0]
             it = env.get(it[1], it) if it[0] == 'ref' else it
@@ -531,8 +535,8 @@ def _yielded_index(I, env):
             if it[0] == 'call' and it[1].endswith('::enumerate') and it[2]:
                 src = it[2][0]
     # Some(i) payload of position / rposition
-    if v[0] == 'field' and v[2] == '0' and v[1][0] == 'downcast' and v[1][2] == 'Some':
-        c = v[1][1]
+    c = v[1][1] if (v[0] == 'field' and v[2] == '0' and v[1][0] == 'downcast' and v[1][2] == 'Some') else (v[1] if v[0] == 'okval' else None)
+    if c is not None:
         if c[0] == 'call' and c[1].endswith(('::position', '::rposition')) and c[2]:
             src = c[2][0]
             src = env.get(src[1], src) if src[0] == 'ref' else src
